@@ -173,6 +173,11 @@ struct Request {
     /// loop_step: the fragment starts after the last `let` of the loop body that binds this name
     #[serde(default)]
     after_let: Option<String>,
+    /// call_trace: an `if` whose condition does not translate and whose branches make different calls becomes
+    /// `if c<k> then .. else ..` for a boolean input `c<k>` of the generated definition (the lemma is then for both
+    /// values); calls made inside a `for` loop are recorded once with the method name prefixed by `*`
+    #[serde(default)]
+    opaque_conditions: bool,
 }
 
 // ---------------------------------------------------------------------------------------- errors
